@@ -111,7 +111,7 @@ class DispDouble:
             if self.spec.get("spawn_in_enter"):
                 # a disposable that starts a background task of its own while entering (the new
                 # scope's task group is already in place): the task belongs to that scope
-                r.spawn(self.bid, self.bid, 90 + self.idx, {"kind": "ret", "pauses": 1})
+                r.spawn(self.bid, self.bid, 90 + self.idx, {"kind": self.spec.get("spawn_kind", "ret"), "pauses": 1})
             if mode.startswith("susp"):
                 await r.w.pause(f"{self.name}.enter")
             if mode.endswith("raise") or mode.endswith("raise_base"):
